@@ -299,6 +299,12 @@ void NLPSolver::CalculateNextPoints()
 
     if (mNextPoints[i].x >= mNextIntervals[i]->pr.x || mNextPoints[i].x <= mNextIntervals[i]->pl.x)
       mNeedStop = true;
+    if (!(mNextPoints[i].x >= 0. && mNextPoints[i].x <= 1.))
+    {
+      // NaN or outside [0,1] (non-finite function values): the evolvent is undefined there
+      mNeedStop = true;
+      mNextPoints[i].x = 0.5 * (mNextIntervals[i]->pr.x + mNextIntervals[i]->pl.x);
+    }
 
     mEvolvent.GetImage(mNextPoints[i].x, mNextPoints[i].y);
   }
